@@ -140,7 +140,7 @@ func guardNote(why string) string {
 
 // R3: what is bound in a dynamic block's iterator carries the for_each marks.
 func c19IteratorMarks(c *Ctx) {
-	c.Rule("R3 iter.marks: every cty value handed to (*iteration).MakeChild as the iterator key or value that is an element of a collection whose marks were stripped by Unmark() has those marks re-applied (WithMarks of the stripped marks / WithSameMarks of the original): expandSpec.newBlock protects block labels only by an IsMarked() test of the evaluated label, so an unmarked element of a collection marked as a whole would become a block label, a decoded map key and part of 'Duplicate block' messages")
+	c.Rule("R3 iter.marks: every cty value handed to (*iteration).MakeChild as the iterator key or value that is the result of Unmark()/UnmarkDeep() or an element of a collection whose marks were stripped has those marks re-applied (WithMarks of the stripped marks / WithSameMarks of the original): expandSpec.newBlock protects block labels only by an IsMarked() test of the evaluated label, so an unmarked element of a collection marked as a whole would become a block label, a decoded map key and part of 'Duplicate block' messages")
 	mk := c.P.LookupFunc("ext/dynblock", "iteration.MakeChild")
 	if mk == nil {
 		c.CheckerFail("iter.marks", "anchor (*iteration).MakeChild does not resolve")
@@ -173,6 +173,65 @@ func c19IteratorMarks(c *Ctx) {
 		}
 	}
 	c.Floor("iter.marks arguments", n, 2, "key and value of the known for_each iteration")
+	// the label guard of newBlock asks a value that can still be marked
+	nb := c.P.LookupFunc("ext/dynblock", "expandSpec.newBlock")
+	if nb == nil {
+		c.CheckerFail("iter.marks", "anchor (*expandSpec).newBlock does not resolve")
+		return
+	}
+	c.Fn(FuncName(nb))
+	var fromStripped func(v ssa.Value, d int) bool
+	fromStripped = func(v ssa.Value, d int) bool {
+		if v == nil || d > 10 {
+			return false
+		}
+		if strippedCopy(v, map[ssa.Value]bool{}, 0) != nil {
+			return true
+		}
+		switch x := v.(type) {
+		case *ssa.Extract:
+			if call, ok := x.Tuple.(*ssa.Call); ok && x.Index == 0 {
+				ci := calleeOf(&call.Call)
+				if ci.name == "Convert" && len(call.Call.Args) > 0 {
+					return fromStripped(call.Call.Args[0], d+1)
+				}
+			}
+		case *ssa.Phi:
+			all := len(x.Edges) > 0
+			for _, e := range x.Edges {
+				if !fromStripped(e, d+1) {
+					all = false
+				}
+			}
+			return all
+		case *ssa.UnOp:
+			if al, ok := x.X.(*ssa.Alloc); ok && x.Op == token.MUL {
+				sts := storesInto(al)
+				all := len(sts) > 0
+				for _, st := range sts {
+					if !fromStripped(st.Val, d+1) {
+						all = false
+					}
+				}
+				return all
+			}
+		}
+		return false
+	}
+	guards := 0
+	for _, b := range nb.Blocks {
+		for _, ins := range b.Instrs {
+			call, ok := ins.(*ssa.Call)
+			if !ok || !calleeOf(&call.Call).isCtyValueMethod("IsMarked", "ContainsMarked") || len(call.Call.Args) == 0 {
+				continue
+			}
+			guards++
+			c.Sites++
+			c.Check(!fromStripped(call.Call.Args[0], 0), "iter.marks", FuncName(nb)+":label.guard", call.Pos(), "asked of the evaluated label, marks included",
+				"the mark test that keeps marked content out of block labels is asked of a value made from the copy Unmark() returned: it is always unmarked, the test never fires, and the content of a marked value becomes a block label (and part of 'Duplicate block' messages)")
+		}
+	}
+	c.Floor("iter.marks label guards", guards, 1, "the IsMarked test of newBlock")
 }
 
 // R4 scope.marks: an element of a collection whose marks were stripped is bound in an evaluation
@@ -180,7 +239,7 @@ func c19IteratorMarks(c *Ctx) {
 // (Diagnostic.EvalContext), and the text writer prints the values of the variables an erroneous
 // expression refers to unless they are marked.
 func c19ScopeMarks(c *Ctx) {
-	c.Rule("R4 scope.marks: every value stored into an EvalContext.Variables map in hcl, hclsyntax, hcldec, ext/dynblock that is an element of a collection whose marks were stripped by Unmark() has those marks re-applied (WithMarks / WithSameMarks): diagnostics of sub-expressions carry that scope (Diagnostic.EvalContext) and the diagnostic text writer prints every unmarked variable the failing expression refers to")
+	c.Rule("R4 scope.marks: every value stored into an EvalContext.Variables map in hcl, hclsyntax, hcldec, ext/dynblock that is the result of Unmark()/UnmarkDeep() or an element of a collection whose marks were stripped has those marks re-applied (WithMarks / WithSameMarks): diagnostics of sub-expressions carry that scope (Diagnostic.EvalContext) and the diagnostic text writer prints every unmarked variable the failing expression refers to")
 	n := 0
 	for _, fn := range c.P.pkgFuncs("hcl", "hclsyntax", "hcldec", "ext/dynblock") {
 		// maps that are (or become) the Variables of an EvalContext
@@ -246,6 +305,12 @@ func c19ScopeMarks(c *Ctx) {
 					}
 					c.Fn(FuncName(owner))
 					stripped, remarked := strippedElementOf(bd.v)
+					if stripped == nil {
+						// the stripped copy itself (not an element of it) bound as a variable
+						if sc := strippedCopy(bd.v, map[ssa.Value]bool{}, 0); sc != nil {
+							stripped, remarked = sc, false
+						}
+					}
 					key := fmt.Sprintf("%s:bind[%s]<-%s", FuncName(owner), pathName(mu.Key), pathName(bd.v))
 					c.Check(stripped == nil || remarked, "scope.marks", key, bd.pos, "not an element of a stripped collection, or re-marked",
 						"an element of a collection whose marks were stripped by Unmark() is bound in a child scope without them: a diagnostic of a sub-expression evaluated in that scope carries the scope, and the text writer prints the variable's content (`with v as \"…\"`)")
